@@ -3,6 +3,7 @@ CONSTANTS
   Capacity = 1
   Getters = {"g1", "g2"}
   Rounds = 1
+  M_HeartbeatLives = TRUE
   RecordGate = TRUE
   HeartbeatWhenAvailable = TRUE
 INVARIANTS NeverLostWakeup
